@@ -20,7 +20,7 @@ import (
 )
 
 func TestMain(m *testing.M) {
-	vstat.Rule("TokenBucketSet (sub-second periods allowed) and the HTTP TokenLimiter (periods >= 1s), 1-3 rates, frozen clock. Operation programs: advance(d), consume(n) with n around the bursts, flood(k,n) at one instant, retry-after-advertised-delay (advance exactly the returned delay / X-Retry-In, repeat the request), idle(burst*tau) then consume(min burst), consume(n > burst). Oracles: (i) metamorphic: deleting every rejected request that is not the first request at its instant leaves every remaining decision and delay identical (second instance replays the reduced time-line); (ii) a rejected n <= burst retried after the advertised delay is admitted; (iii) after idling max(burst*tau) a request of the smallest burst is admitted; (iv) n > burst is refused with an error (HTTP: error status, no X-Retry-In), never admitted; (v) a trickle of rejected requests at instants unrelated to tau cannot starve the source: n <= burst is admitted at the latest (2n+1)*tau after the last admission (the bound that holds even when every refill drops its remainder). Non-trivial: multi-rate set in which the refusing rate is not the longest-period one and >= 5 rejected requests between two admitted ones. TestC13_Quota: volume quotas (periods 1 h-30 d, averages and bursts up to 4e9, requests of up to millions of units, optional second short-period rate, bucket-set and HTTP level): a rejection has a positive delay, the retry after exactly that delay is admitted, nothing beyond burst + average x elapsed/period. TestC13_TwoClients: stock request.header extractor (five spellings), names with shared prefixes of 0-200 bytes, client A spends its burst, is refused, waits exactly the advertised delay while client B is busy, is admitted; then idles burst x period/average while B keeps going and regains its whole burst.")
+	vstat.Rule("TokenBucketSet (sub-second periods allowed) and the HTTP TokenLimiter (periods >= 1s), 1-3 rates, frozen clock. Operation programs: advance(d), consume(n) with n around the bursts, flood(k,n) at one instant, retry-after-advertised-delay (advance exactly the returned delay / X-Retry-In, repeat the request), idle(burst*tau) then consume(min burst), consume(n > burst). Oracles: (i) metamorphic: deleting every rejected request that is not the first request at its instant leaves every remaining decision and delay identical (second instance replays the reduced time-line); (ii) a rejected n <= burst retried after the advertised delay is admitted; (iii) after idling max(burst*tau) a request of the smallest burst is admitted; (iv) n > burst is refused with an error (HTTP: error status, no X-Retry-In), never admitted; (v) a trickle of rejected requests at instants unrelated to tau cannot starve the source: n <= burst is admitted at the latest (2n+1)*tau after the last admission (the bound that holds even when every refill drops its remainder). Non-trivial: multi-rate set in which the refusing rate is not the longest-period one and >= 5 rejected requests between two admitted ones. TestC13_Quota: volume quotas (periods 1 h-30 d, averages and bursts up to 4e9, requests of up to millions of units, optional second short-period rate, bucket-set and HTTP level): a rejection has a positive delay, the retry after exactly that delay is admitted, nothing beyond burst + average x elapsed/period. TestC13_TwoClients: stock request.header extractor (five spellings), names with shared prefixes of 0-200 bytes, client A spends its burst, is refused, waits exactly the advertised delay while client B is busy, is admitted; then idles burst x period/average while B keeps going and regains its whole burst. TestC13_PlanChange: plans A and B of one period (1 s-1 min), averages 1-20, bursts up to 5 x the smaller average; traffic under A, idle max(burst) x max(tau) + 1 ms, then a request of burst(B) under B must pass and one more unit must not.")
 	vstat.Main(m.Run)
 }
 
@@ -543,5 +543,82 @@ func TestC13_TwoClients(t *testing.T) {
 			}
 		}
 		vstat.Case(fmt.Sprintf("two|%s|%d|%v|%d|%d", spelling, len(prefix), rates, busy, steps), true, []string{"second-client-busy"}, map[string]any{"header": spelling, "name_prefix_len": len(prefix), "rates": fmt.Sprint(rates), "log": log})
+	})
+}
+
+// TestC13_PlanChange: "a source that stays idle regains its full burst after burst x
+// (period/average)" when the rate extractor puts the source on another plan (same period,
+// other average and burst) in the meantime. The idle time is chosen long enough under either
+// plan's reading - max(burst) x max(period/average) - so whichever rate one thinks the idle time
+// is credited at, the full burst of the plan now in force is there; a request of exactly that
+// size is admitted, and one more unit is not.
+func TestC13_PlanChange(t *testing.T) {
+	rapid.Check(t, func(t *rapid.T) {
+		period := rapid.SampledFrom([]time.Duration{time.Second, 2 * time.Second, 10 * time.Second, time.Minute}).Draw(t, "period")
+		avgA, avgB := int64(rapid.IntRange(1, 20).Draw(t, "avgA")), int64(rapid.IntRange(1, 20).Draw(t, "avgB"))
+		bcap := 5 * avgA // bursts that refill well within the time an idle source is remembered, under either plan
+		if avgB < avgA {
+			bcap = 5 * avgB
+		}
+		burstA, burstB := rapid.Int64Range(1, bcap).Draw(t, "burstA"), rapid.Int64Range(1, bcap).Draw(t, "burstB")
+		planA, planB := gen.Rate{Period: period, Average: avgA, Burst: burstA}, gen.Rate{Period: period, Average: avgB, Burst: burstB}
+		setA, errA := gen.RateSet([]gen.Rate{planA})
+		setB, errB := gen.RateSet([]gen.Rate{planB})
+		if errA != nil || errB != nil {
+			t.Fatalf("rate sets refused: %v %v", errA, errB)
+		}
+		clock.Freeze(epoch.Add(time.Duration(rapid.Int64Range(0, int64(time.Second)-1).Draw(t, "phase"))))
+		defer clock.Unfreeze()
+		served := 0
+		tl, err := ratelimit.New(http.HandlerFunc(func(w http.ResponseWriter, r *http.Request) { served++ }), gen.HeaderExtractor, setA,
+			ratelimit.ExtractRates(ratelimit.RateExtractorFunc(func(r *http.Request) (*ratelimit.RateSet, error) {
+				if r.Header.Get("X-Plan") == "b" {
+					return setB, nil
+				}
+				return setA, nil
+			})))
+		if err != nil {
+			t.Fatal(err)
+		}
+		do := func(plan string, n int64) bool {
+			req := httptest.NewRequest("GET", "http://x/", nil)
+			req.Header.Set("X-Src", "a")
+			req.Header.Set("X-Amt", strconv.FormatInt(n, 10))
+			req.Header.Set("X-Plan", plan)
+			before := served
+			tl.ServeHTTP(httptest.NewRecorder(), req)
+			return served == before+1
+		}
+		// some traffic under plan A (spends part or all of its burst)
+		spent := rapid.Int64Range(1, burstA).Draw(t, "spentUnderA")
+		if !do("a", spent) {
+			t.Fatalf("a fresh source on plan %v: request of %d units refused", planA, spent)
+		}
+		for i := rapid.IntRange(0, 5).Draw(t, "moreUnderA"); i > 0; i-- {
+			do("a", 1)
+			clock.Advance(time.Duration(rapid.Int64Range(0, int64(planA.Tau())).Draw(t, "gapA")))
+		}
+		// idle: long enough under either plan, but short of the time the source is remembered
+		maxBurst, maxTau := burstA, planA.Tau()
+		if burstB > maxBurst {
+			maxBurst = burstB
+		}
+		if planB.Tau() > maxTau {
+			maxTau = planB.Tau()
+		}
+		idle := time.Duration(maxBurst)*maxTau + time.Millisecond
+		remembered := 10*period + time.Second
+		if idle >= remembered {
+			vstat.Count("idle_longer_than_entry_lifetime", 1)
+			return
+		}
+		clock.Advance(idle)
+		if !do("b", burstB) {
+			t.Fatalf("source on plan %v spent %d, then stayed idle for %v (= max burst %d x max period/average %v) and was moved to plan %v: a request of its full burst (%d) was refused", planA, spent, idle, maxBurst, maxTau, planB, burstB)
+		}
+		if do("b", 1) && planB.Tau() > 0 {
+			t.Fatalf("source moved to plan %v: after a request of the full burst one more unit was admitted at the same instant", planB)
+		}
+		vstat.Case(fmt.Sprintf("planchange|%v|%v|%d", planA, planB, spent), burstB != burstA || avgA != avgB, []string{"plan-changed-while-idle"}, map[string]any{"planA": fmt.Sprint(planA), "planB": fmt.Sprint(planB), "idle": idle.String()})
 	})
 }
